@@ -39,6 +39,7 @@ func Run(o *hx.Opts, w *lineio.Writer) error {
 	jobs = append(jobs, c10.ListenerScripts(mp)...)
 	jobs = append(jobs, c10.ReopenScripts(mp)...)
 	jobs = append(jobs, c10.TearSweep(mp)...)
+	jobs = append(jobs, c10.TearPayloadSweep(mp)...)
 	r := o.Rand(11)
 	for i := 0; i < o.N(500, 12000); i++ {
 		jobs = append(jobs, c10.RandomScript(r, mp, i))
